@@ -220,7 +220,7 @@ def run_property(hmod, tier, seed, only=None):
     if extra:
         cov.update(extra())
     os.makedirs(EVIDENCE_DIR, exist_ok=True)
-    if not only:
+    if not only and not os.environ.get("VERIF_NO_EVIDENCE"):      # (development runs against scratch trees leave no evidence)
         with open(os.path.join(EVIDENCE_DIR, "%s.json" % pid), "w") as f:
             json.dump(evidence, f, indent=1, default=repr)
     for name, msg, path, inputs in violations:
